@@ -175,6 +175,51 @@ def oracle_load_equality(ck, rng):
                               "center_px": c.tolist()}, key={"site": "load-equality", "kind": kind, "binsize": b}, oracle="binned_load_equals_blocksum")
 
 
+def oracle_binning_composes(ck, rng):
+    """theorems C15_binning_composes / C15_block_sums_compose on the real loaders: binning(b1).binning(b2) is binning(b1 * b2)"""
+    from acryo import SubtomogramLoader, BatchLoader, Molecules
+    import dask.array as da
+    n = 6 if ck.tier == "quick" else 60
+    for i in range(n):
+        b1, b2 = [(2, 2), (2, 3), (3, 2), (1, 3), (2, 1), (4, 2)][i % 6]
+        dims = tuple(int(x) for x in rng.integers(6 * b1 * b2, 6 * b1 * b2 + b1 * b2 + 2, size=3))
+        img = rng.integers(0, 9, size=dims).astype(np.float32)
+        scale = float(rng.choice([1.0, 0.5, 2.0]))
+        pos = rng.integers(8, 4 * min(dims) - 8, size=(3, 3)) / 4.0 * scale
+        kind = "batch" if (i // 2) % 2 else "single"
+        image = da.from_array(img, chunks=(7, 5, 6)) if i % 2 else img
+        if kind == "single":
+            ld = SubtomogramLoader(image, Molecules(pos), order=1, scale=scale, output_shape=(3, 2, 3))
+        else:
+            ld = BatchLoader(order=1, scale=scale, output_shape=(3, 2, 3))
+            ld.add_tomogram(image, Molecules(pos[:2]), image_id=3)
+            ld.add_tomogram(np.asarray(img)[::-1].copy(), Molecules(pos[2:]), image_id=1)
+        inp = {"kind": kind, "b1": b1, "b2": b2, "dims": list(dims), "scale": scale, "dask": bool(i % 2), "pos": pos.tolist()}
+        try:
+            two = ld.binning(b1, compute=bool(i % 3)).binning(b2, compute=bool((i + 1) % 3))
+            one = ld.binning(b1 * b2, compute=True)
+            bad = None
+            if abs(two.scale - one.scale) > 1e-9 * one.scale:
+                bad = f"scale {two.scale} after binning({b1}).binning({b2}) but {one.scale} after binning({b1 * b2})"
+            elif not np.allclose(two.molecules.pos, one.molecules.pos, rtol=0, atol=1e-6 * scale):
+                bad = (f"molecule positions differ by {float(np.abs(two.molecules.pos - one.molecules.pos).max()):.4g} nm between "
+                       f"binning({b1}).binning({b2}) and binning({b1 * b2})")
+            else:
+                ims2 = [two.image] if kind == "single" else [two.images[k] for k in (3, 1)]
+                ims1 = [one.image] if kind == "single" else [one.images[k] for k in (3, 1)]
+                for x2, x1 in zip(ims2, ims1):
+                    x2, x1 = np.asarray(x2), np.asarray(x1)
+                    # theorem C15_shapes_compose: floor(floor(s / b1) / b2) = floor(s / (b1 b2)), so the shapes agree as well
+                    if x2.shape != x1.shape or not np.array_equal(x2, x1):
+                        bad = f"voxel values of binning({b1}).binning({b2}) differ from binning({b1 * b2}) (shapes {x2.shape} / {x1.shape})"
+                        break
+        except Exception as e:  # noqa
+            bad = f"binning({b1}).binning({b2}) raised {type(e).__name__}: {e}"
+        ck.oracle_count("binning_composes", 1, 1)
+        if bad:
+            ck.violation(what=bad, inp=inp, key={"site": "binning-composes", "kind": kind, "b": [b1, b2]}, oracle="binning_composes")
+
+
 def run(ck: common.Check):
     ck.design_ref = "DESIGN.md §6 C15"
     ck.trusted_base = TB
@@ -187,6 +232,7 @@ def run(ck: common.Check):
     corr_bin_image(ck, rng)
     corr_binning(ck, rng)
     oracle_load_equality(ck, rng)
+    oracle_binning_composes(ck, np.random.default_rng(ck.seed + 1516))
 
 
 def replay(data):
